@@ -416,7 +416,14 @@ def r13g(model: Model, rr: RuleResult):
     partial = None
     for c in cmps:
         sides = [c.left, c.comparators[0]]
-        t = [norm(x) for x in sides]
+        from ..dataflow import resolved as _res13g, fold_module_constants as _fold13g
+        sides = [_res13g(cfg, cfg.node_for(sets[0]), x) for x in sides]
+        t = []
+        for x in sides:
+            tx = norm(x)
+            if isinstance(x, ast.Name) and x.id in fi.module.assigns:
+                tx = norm(fi.module.assigns[x.id])  # a module-level name for the default colour
+            t.append(tx)
         if any(x.endswith(".color.opaque()") or x.endswith(".color") for x in t) and any("Color.fromstring('black')" == x or x == "black" for x in t):
             whole = True
         for x in sides:
